@@ -477,6 +477,26 @@ fn wrapped_forms(rep: &mut Report, x: &PV, y: &PV, plain: &[Option<bool>; 6]) {
             }
         }
     }
+    // (f) comparators do not chain specially: `l OP1 r OP2 x` is `(l OP1 r) OP2 x` (left to right, all six at one level),
+    // so an ordering applied to the boolean / null of an equality is null, an equality applied to it compares that boolean
+    {
+        let h = fnv(format!("{}|{}", x.text(), y.text()).as_bytes());
+        for k in 0..4u64 {
+            let (o1, o2) = (OPS[((h >> (k * 6)) % 6) as usize], OPS[((h >> (k * 6 + 3)) % 6) as usize]);
+            for third in ["l", "r", "`true`", "`null`"] {
+                let flat = format!("l {} r {} {}", o1, o2, third);
+                let grouped = format!("(l {} r) {} {}", o1, o2, third);
+                rep.evaluations += 1;
+                let a = guarded(|| jmespath::compile(&flat).and_then(|e| e.search(&input)).map(|v| v.to_string()).map_err(|e| e.to_string()));
+                let b = guarded(|| jmespath::compile(&grouped).and_then(|e| e.search(&input)).map(|v| v.to_string()).map_err(|e| e.to_string()));
+                if a == b {
+                    rep.count("wrapped/comparator_chain_groups_left_to_right");
+                } else {
+                    rep.violation("C10/comparator-chain-does-not-group-left-to-right", json!({"l": x.text(), "r": y.text(), "expression": flat, "parenthesised": grouped, "got": format!("{:?}", a), "parenthesised_got": format!("{:?}", b)}));
+                }
+            }
+        }
+    }
     // (c) multi-select values whose members are the SAME nodes under different / equal names
     for (text, want) in [("{p: l} == {q: l}", false), ("{p: l} == {p: l}", true), ("{p: l} != {q: l}", true), ("[l] == [l]", true), ("[l, l] == [l]", false), ("{p: l, q: r} == {p: l, q: r}", true),
                          ("{p: l, q: r} == {p: r, q: l}", plain[0] == Some(true)),
